@@ -379,7 +379,7 @@ func (it *Interp) forInOfLoop(n *Node, ctx *Ctx, labelSet []string) Completion {
 				if destructuring {
 					it.destructuringAssignment(lhs, nextValue, ctx)
 				} else {
-					r := it.evalTargetRef(lhs, ctx)
+					r := it.evalLeafTargetRef(lhs, ctx)
 					it.putValue(r, nextValue)
 				}
 			}
